@@ -18,6 +18,7 @@ import (
 	"fmt"
 	"go/token"
 	"go/types"
+	"os"
 	"reflect"
 	"strings"
 	"sync"
@@ -414,7 +415,7 @@ func init() {
 			return types.Implements(rtypeOf(a[0]), it)
 		},
 		"(reflect.rtype).AssignableTo": func(fr *frame, a []value) value {
-			return types.AssignableTo(rtypeOf(a[0]), argType(a[1]))
+			return assignable(fr.i, rtypeOf(a[0]), argType(a[1]))
 		},
 		"(reflect.rtype).ConvertibleTo": func(fr *frame, a []value) value {
 			return types.ConvertibleTo(rtypeOf(a[0]), argType(a[1]))
@@ -527,7 +528,7 @@ func init() {
 				panic(targetStringPanic("reflect: reflect.Value.Set using unaddressable or unexported value"))
 			}
 			dt, st := rV2T(a[0]).t, rV2T(a[1]).t
-			if !types.AssignableTo(st, dt) {
+			if !assignable(fr.i, st, dt) {
 				panic(targetStringPanic("reflect.Set: value of type " + typeString(st) + " is not assignable to type " + typeString(dt)))
 			}
 			store(dt, p, copyVal(assignTo(dt, st, rV2V(a[1]))))
@@ -616,8 +617,8 @@ func init() {
 					panic(targetStringPanic("reflect: Call using zero Value argument"))
 				}
 				pt := sig.Params().At(i).Type()
-				if !types.AssignableTo(rV2T(x).t, pt) {
-					panic(targetStringPanic("reflect: Call using " + typeString(rV2T(x).t) + " as type " + typeString(pt)))
+				if !assignable(fr.i, rV2T(x).t, pt) {
+					if debugStacks { fmt.Fprintf(os.Stderr, "CALL MISMATCH arg %d: %v (%T) as %v\n", i, rV2T(x).t, rV2V(x), pt) }; panic(targetStringPanic("reflect: Call using " + typeString(rV2T(x).t) + " as type " + typeString(pt)))
 				}
 				args[i] = copyVal(assignTo(pt, rV2T(x).t, rV2V(x)))
 			}
@@ -674,6 +675,30 @@ func init() {
 	for k, v := range ext {
 		externals[k] = v
 	}
+}
+
+// assignable is types.AssignableTo extended to the VM's own opaque types
+// (vmctx, wraperr, rtype), which go/types cannot look into.
+func assignable(i *interpreter, src, dst types.Type) bool {
+	if n, ok := src.(*types.Named); ok && n.Obj().Pkg() == reflectTypesPackage {
+		if src == dst {
+			return true
+		}
+		it, ok := dst.Underlying().(*types.Interface)
+		if !ok {
+			return false
+		}
+		for k := 0; k < it.NumMethods(); k++ {
+			if i.fakeMethod(n, it.Method(k).Name()) == nil {
+				return false
+			}
+		}
+		return true
+	}
+	if n, ok := dst.(*types.Named); ok && n.Obj().Pkg() == reflectTypesPackage {
+		return src == dst
+	}
+	return types.AssignableTo(src, dst)
 }
 
 func sigOf(a value) *types.Signature {
